@@ -29,6 +29,8 @@ def fixed_width(b, name, count=None, adaptive=False, ire=False, align=True, empt
     b.assume(w > 0)
     if count is None:
         b.assume(c >= 0)
+    if count == 0:
+        t = None        # invariant of the constructor: an empty fixed-width binning has no origin index yet
     return b.obj(FWB, _consecutive=None, _bins=None, _numpy_bins=None, _includes_right_edge=ire, _adaptive=adaptive,
                  _bin_width=w, _align=align, _bin_count=c, _times_min=t, _shift=s)
 
@@ -154,6 +156,8 @@ def same_binning(b0, b1):
         for f in ("_bin_width", "_bin_count", "_shift", "_align"):
             cs.append(same(attr(b0, f), attr(b1, f)))
         cs.append(Or(attr(b0, "_bin_count") == 0, same(attr(b0, "_times_min"), attr(b1, "_times_min"))))
+        if not isinstance(attr(b1, "_bin_count"), int):
+            return And(*cs)         # symbolic count: caches are checked by the accessor contracts
         v1 = bins_of(b1)
         for cache in ("_bins", "_numpy_bins"):
             c = attr(b1, cache)
